@@ -10,7 +10,7 @@
    and the refinement of the exact model there (QuadTree_Proof_Float.v, QuadTree_Proof_FloatExact.v, QuadTree_Proof_FloatQ.v;
    these three use the PrimFloat axioms of the standard library and, the last two, Flocq 4.1 and the classical reals). *)
 From Coq Require Import List Arith Bool ZArith QArith Permutation Reals.
-From TK Require Import QuadTree_Model QuadTree_Spec QuadTree_SpecExec QuadTree_Proof_Base
+From TK Require Import QuadTree_Model QuadTree_Spec QuadTree_SpecExec QuadTree_SpecExec2 QuadTree_Proof_Base
                        QuadTree_Proof_Insert QuadTree_Proof_Main QuadTree_Proof_Forces
                        QuadTree_Proof_Fuel QuadTree_Proof_Spec QuadTree_Proof_Exec
                        QuadTree_Proof_Observers QuadTree_Proof_Order QuadTree_Proof_Order2 QuadTree_Proof_Bound
@@ -430,6 +430,13 @@ Theorem forces_subtrees_are_forces_cells : forall p i theta t n,
   map (fun x => (snd (fst x), snd x)) (forces_cells p i theta n t).
 Proof. exact forces_subtrees_cells. Qed.
 Print Assumptions forces_subtrees_are_forces_cells.
+(* ... and forces_at is the fold of add_summary over it: the model driver runs forces_subtrees (and numbers the returned
+   subtrees in preorder itself), the check re-evaluates this fold in floats *)
+Theorem forces_fold_subtrees : forall p i theta t a,
+  forces_at p i theta t a =
+  fold_left (fun a s => add_summary p (qcum s) (qcom s) a) (forces_subtrees p i theta t) a.
+Proof. exact forces_at_subtrees. Qed.
+Print Assumptions forces_fold_subtrees.
 Example theta_refinement_nonvacuous : 0 <= (1#8) /\ (1#8) <= (1#2).
 Proof. split; discriminate. Qed.
 
